@@ -191,10 +191,19 @@ def build(tier, ctx):
     fwd = "ABCDEFGH"
     rev = "ZYXWVUTS"
     mixed = "MAZBYCXD"
+    # wave 13/14: unusual but legitimate event type names: words and symbols
+    # the miner and the process-tree notation use themselves, names that are
+    # prefixes of one another or differ in case / blanks / quoting only
+    odd1 = ["tau", "+", "X", "O", "->", "*", "a b", "a,b"]
+    odd2 = ["A", "a", "AA", "A A", "'A'", "(A)", "A1", "A_1"]
+    odd3 = ["X( a, b )", "None", "O", "tau", "a", "A", "|||START|||x", "1"]
     labelled = []
     for s in shapes:
         labelled.append(label(s, fwd))
         labelled.append(label(s, rev))
+        labelled.append(label(s, odd1))
+        labelled.append(label(s, odd2))
+        labelled.append(label(s, odd3))
         if tier == "thorough":
             labelled.append(label(s, mixed))
     tasks = []
